@@ -447,7 +447,8 @@ def oracle_l1(only_snvs, groups, given, ids, out):
                     if d["blocks"] > 0:
                         tot[j] = v[j] if nb == 0 else min(tot[j], v[j])
                 elif k.endswith("_max"):
-                    tot[j] = max(tot[j], v[j])
+                    if d["blocks"] > 0:
+                        tot[j] = v[j] if nb == 0 else max(tot[j], v[j])
                 else:
                     tot[j] += v[j]
             nb += d["blocks"]
